@@ -154,12 +154,16 @@ def feed(rd, phase, data):
 
 def execute(sc, ctx):
     out = Outcome()
+    from .. import gen_patterns as _gp
+    _gp.MULTI_HOLES = True      # two-entry, descending hole lists (S85); only this engine, only while the recipe is drawn
     try:
         mod, recipe = _p.materialise(sc)
     except C.Refused as e:
         out.refused = True
         out.event('refused-at-build', str(e)[:80])
         return out
+    finally:
+        _gp.MULTI_HOLES = False
     if recipe is not None:
         out.explicit = dict(sc, recipe=recipe)
         out.explicit.pop('compose', None)
